@@ -27,6 +27,7 @@ def gen(rng, tier, k):
 
     op = rng.choice(OPS)
     perms = [["reverse"], ["shuffle", rng.randrange(10**6)], ["append_split", rng.randrange(10**6)], ["shuffle", rng.randrange(10**6)]][: rng.choice([2, 3, 4])]
+    perms.append(rng.choice([["sorted_pieces", rng.randrange(10**6)], ["concat_dup_labels", rng.randrange(10**6)]]))
     if op == "write":
         game = rng.choice(["osu", "qua", "sm", "bms"])
         if game == "sm":
